@@ -14,7 +14,16 @@ temperatures lie below, near and above the table's resolution 10^-s and inside o
 real MISS path of `_computeSingleMobility` (an analytic thermodynamics stand-in, and NICRAL_TDB with pycalphad).  Oracle: every
 answer = the fresh evaluation (no table) of the point itself or of a point within 10^-s of it evaluated before on this table
 (theorem cached_answer_is_fresh_within_resolution); correspondence: which record serves which point, and every value, against
-Homog.runPipeline on HashCache.keyCast 64."""
+Homog.runPipeline on HashCache.keyCast 64.
+
+SEVERAL MODEL OBJECTS (section "several model objects and their parameter objects"): histories over 2-3 real HomogenizationModel objects
+(built without parameters, with their own HomogenizationParameters, or with an object the user hands to two of them) in which setter calls
+on one model are interleaved with evaluations of the others (mobilities captured inside the model's own _getFluxes, fluxes, and the public
+function on the model's own attributes).  Oracle: every evaluation of a model = by-name scalar reference under the settings made on ITS
+parameters object (theorems isolation / isolation_own / isolation_default); an operation not addressed to a model leaves everything reachable
+from it unchanged; two models hold one parameters object iff the user passed one object, and reach no other common mutable object; a fresh
+model given the same calls answers the same.  Correspondence: every answer and the store at the end against Homog.runM.  Plus: every class of
+kawin.diffusion built twice with default arguments must not reach a common mutable object (constructor defaults made at import time)."""
 import copy, math, traceback, warnings
 import numpy as np
 import vlib
@@ -22,7 +31,7 @@ from vlib import Result, enc_list, enc_ilist, f2b, Toks, close
 
 PROP = 'C17'
 META = {
-    'level_text': 'Lean 4 theorems for any linearly ordered field, any number of phases, M_i > 0, f_i >= 0, sum f = 1: min M <= W_lower <= HS_lower <= HS_upper <= W_upper <= max M for the public averaging functions (tangent-line inequality summed with weights; the code\'s Ak form proved equal to 1/sum f/(M+2g) - 2g), invariance of all five rules under List.Perm of the phase rows, single phase => that mobility, labyrinth = upper Wiener at factor 1 and <= it for every real factor >= 1 (and after the clipping setter), exclude/predefined act on the rows whose stable-phase name matches and never fail for database-phase names in single- or multi-phase regions, and any history of evaluations at a cached point returns for each configuration the answer on the original record and leaves the record unchanged; witnesses prove that the code as found violated the by-name and the twice=once clauses. For many points through one shared hash table (Homog.runPipeline = the HashTable machine of KawinV.HashCache composed with the per-point evaluation), for every thermodynamics function and every history of enable/clear/precision changes and scalar or array calls: each answer is the fresh (uncached) evaluation, under the rule and post-processing of the call, of a point whose composition coordinates and temperature all differ by less than 10^-s from the point asked for (equal keys of the key of the code, which scales composition AND temperature by 10^s, force that for non-negative coordinates), of the point itself with caching off, and asking again gives the same answer; a key that leaves the temperature unscaled is proved to merge T and T+0.8 K at every precision. The model is tied to HomogenizationParameters.py by differential correspondence on every run and the property is evaluated on the implementation against an independent scalar by-name reference.',
+    'level_text': 'Lean 4 theorems for any linearly ordered field, any number of phases, M_i > 0, f_i >= 0, sum f = 1: min M <= W_lower <= HS_lower <= HS_upper <= W_upper <= max M for the public averaging functions (tangent-line inequality summed with weights; the code\'s Ak form proved equal to 1/sum f/(M+2g) - 2g), invariance of all five rules under List.Perm of the phase rows, single phase => that mobility, labyrinth = upper Wiener at factor 1 and <= it for every real factor >= 1 (and after the clipping setter), exclude/predefined act on the rows whose stable-phase name matches and never fail for database-phase names in single- or multi-phase regions, and any history of evaluations at a cached point returns for each configuration the answer on the original record and leaves the record unchanged; witnesses prove that the code as found violated the by-name and the twice=once clauses. For many points through one shared hash table (Homog.runPipeline = the HashTable machine of KawinV.HashCache composed with the per-point evaluation), for every thermodynamics function and every history of enable/clear/precision changes and scalar or array calls: each answer is the fresh (uncached) evaluation, under the rule and post-processing of the call, of a point whose composition coordinates and temperature all differ by less than 10^-s from the point asked for (equal keys of the key of the code, which scales composition AND temperature by 10^s, force that for non-negative coordinates), of the point itself with caching off, and asking again gives the same answer; a key that leaves the temperature unscaled is proved to merge T and T+0.8 K at every precision. For histories over SEVERAL model objects (Homog.runM: a store of parameter objects by identity and, per model, the identity of the object it holds; operations new parameters object / new model without or with a given object / setter on a model / setter on an object / evaluation): what a model evaluates after any history is the evaluation under the state of its parameters object changed by exactly the settings addressed to that object (isolation); if nobody reaches the object from outside the model, it depends only on the setter calls made ON that model, whatever was built, configured and evaluated in between (isolation_own, isolation_default, isolation_answer, isolation_two_histories); two models built without parameters never hold the same object (default_objects_distinct); witnesses: one default object made at import time couples unrelated models (shared_default_couples, 38 -> 35), an object the user hands to two models couples them by design (user_shared_object_couples). The model is tied to HomogenizationParameters.py by differential correspondence on every run and the property is evaluated on the implementation against an independent scalar by-name reference.',
     'level_note': 'Trusted: Lean kernel + Mathlib, axioms propext/Classical.choice/Quot.sound; the hand model KawinV.Homog equals the NumPy code only as far as this run compared them; exact-field arithmetic instead of IEEE doubles (ordering checked on doubles with rtol 1e-9 scaled by the largest mobility because the upper Hashin-Shtrikman form cancels); the bound chain is proved for defined (positive) mobilities, for undefined entries (-1 -> tiny/max) only the within-pair orderings; columns where every phase is undefined (NaN from the lower HS rule) and fractions off the simplex after `exclude` are outside the bound clauses; the equilibrium calculation that fills the record is pycalphad and is only exercised on a few shipped-database points; the constructor does not clip labyrinthFactor (documented range [1,2] is assumed there, the setter is modelled); the shared-table theorem is over exact fields with the unbounded integer key (HashCache.keyExact); the driver runs the 64-bit key (keyCast 64, equal to it for |v*10^s| < 2^63: C09 keyCast_faithful) and is compared with the implementation on which record serves which point; Python hash of the integer tuple is taken as injective; the cached-vs-fresh oracle allows for the rounding of the double product v*10^s (4e-16 relative).',
     'technique': 'Lean 4 proof over ordered fields (+ real powers) + model/implementation differential correspondence + by-name scalar reference',
     'design_ref': 'DESIGN.md section 6, C17',
@@ -34,6 +43,8 @@ MONITORED = [
     'shipped-database points (NICRAL_TDB): record produced by pycalphad, then by-name / twice=once oracle',
     'cached = fresh through a shared HashTable with the real equilibrium (NICRAL_TDB Ni-Cr, Ni-Cr-Al) and with the analytic stand-in: oracle on the implementation (the theorem is about the model; determinism of pycalphad for one (x, T) is assumed, rtol 1e-9)',
     'chemical potentials returned by computeHomogenizationFunction through the shared table equal the fresh ones: oracle only',
+    'several model objects: fluxes of a model unchanged by operations on other models; boundary conditions / temperature / constraints / hash table / mesh of a model not reachable from another model; a fresh model given the same calls answers bit-identically: oracle on the implementation',
+    'constructor defaults: two objects of any class of kawin.diffusion built with default arguments reach no common mutable object: oracle only',
 ]
 ASSUMPTIONS = [
     'defined mobilities are positive and finite, fractions non-negative and summing to one (as pycalphad returns them); NaN entries outside the statement',
@@ -1865,7 +1876,7 @@ def corr(ctx, n_hist=None, n_rules=None, oracle_only=False, n_pur=None, n_obj=No
     hist = [gen_history_case(ctx.rng) for _ in range(N1)]
     rules = [gen_rules_case(ctx.rng) for _ in range(N2)]
     pur = [gen_purity_case(ctx.rng) for _ in range(N3)]
-    N4 = n_obj or ctx.n(120, 2500)
+    N4 = n_obj or ctx.n(150, 2500)
     objs_cases = [gen_objects_case(ctx.rng) for _ in range(N4)]
     for spec in shipped_purity_specs(ctx):
         pur += [gen_purity_case(ctx.rng, spec, small=True) for _ in range(ctx.n(3, 25))]
